@@ -173,6 +173,108 @@ def fn_sequence(spec, rec):
     rec.label("nreq:%d" % min(len(spec["requests"]), 8), "nsources:%d" % len(spec["sources"]))
 
 
+# --------------------------------------------------------------------------- viewer level: image layer states
+
+def fn_image_layer(spec, rec):
+    """ImageLayerState / ImageSubsetLayerState.get_sliced_data for generated axes, slices and views."""
+    from glue.core import Data, DataCollection
+    from glue.core.component_link import ComponentLink
+    from glue.viewers.image.state import ImageViewerState, ImageLayerState, ImageSubsetLayerState
+    shape = tuple(spec["shape"])
+    nd = len(shape)
+    ref = Data(label="ref", v=np.arange(int(np.prod(shape)), dtype=float).reshape(shape))
+    dc = DataCollection([ref])
+    other = None
+    if spec["other"]:
+        oshape = tuple(max(1, s - o) for s, o in zip(shape, spec["other"]["shrink"]))
+        other = Data(label="other", w=np.arange(int(np.prod(oshape)), dtype=float).reshape(oshape) * 10)
+        dc.append(other)
+        for j in range(nd):
+            dc.add_link(ComponentLink([ref.pixel_component_ids[j]], other.pixel_component_ids[j], using=mk_map(1.0, -float(spec["other"]["offset"][j]))))
+    thr = spec["thr"]
+    dc.new_subset_group(subset_state=ref.id["v"] > thr)
+    vs = ImageViewerState()
+    layers = []
+    ls = ImageLayerState(layer=ref, viewer_state=vs)
+    vs.layers.append(ls)
+    layers.append(("ref-values", ls))
+    ss = ImageSubsetLayerState(layer=ref.subsets[0], viewer_state=vs)
+    vs.layers.append(ss)
+    layers.append(("ref-subset", ss))
+    if other is not None:
+        lo = ImageLayerState(layer=other, viewer_state=vs)
+        vs.layers.append(lo)
+        layers.append(("other-values", lo))
+    if vs.reference_data is not ref:
+        raise Mismatch("image-state/reference-data-not-first-dataset", None)
+    seen = []
+    for k, step in enumerate(spec["steps"]):
+        xa, ya = step["x"] % nd, step["y"] % nd
+        if xa == ya:
+            ya = (xa + 1) % nd
+        vs.x_att = ref.pixel_component_ids[xa]
+        if vs.y_att is not ref.pixel_component_ids[ya]:
+            vs.y_att = ref.pixel_component_ids[ya]
+        xa, ya = vs.x_att.axis, vs.y_att.axis
+        if vs.x_att is vs.y_att:
+            raise Mismatch("image-state/axes-not-distinct", {"step": k})
+        sl = tuple(int(v) % shape[i] for i, v in enumerate(step["slices"][:nd]))
+        vs.slices = sl
+        view = None
+        if step["view"] is not None:
+            view = [slice(*step["view"][0]), slice(*step["view"][1])]
+        for name, layer in layers:
+            try:
+                got = np.asarray(layer.get_sliced_data(view=view))
+            except Exception as e:  # noqa
+                if blame(e)[0] != "glue":
+                    raise
+                raise Mismatch("image-state/get_sliced_data-raises/%s/%s" % (name, type(e).__name__), {"step": k, "exc": repr(e)})
+            ny, nx = shape[ya], shape[xa]
+            exp = np.zeros((ny, nx), dtype=float)
+            for iy in range(ny):
+                for ix in range(nx):
+                    idx = list(sl)
+                    idx[ya], idx[xa] = iy, ix
+                    if name == "ref-values":
+                        exp[iy, ix] = ref["v"][tuple(idx)]
+                    elif name == "ref-subset":
+                        exp[iy, ix] = ref["v"][tuple(idx)] > thr
+                    else:
+                        oidx = [i - o for i, o in zip(idx, spec["other"]["offset"])]
+                        if all(0 <= a < b for a, b in zip(oidx, other.shape)):
+                            exp[iy, ix] = other["w"][tuple(oidx)]
+                        else:
+                            exp[iy, ix] = np.nan
+            if view is not None:
+                exp = exp[view[0], view[1]]
+            g = got.astype(float)
+            if g.shape != exp.shape:
+                raise Mismatch("image-state/sliced-data-shape/" + name, {"step": k, "got": list(g.shape), "expected": list(exp.shape), "x": xa, "y": ya})
+            if not np.all((g == exp) | (np.isnan(g) & np.isnan(exp))):
+                raise Mismatch("image-state/sliced-data-values/" + name, {"step": k, "x": xa, "y": ya, "slices": list(sl), "got": g.tolist(), "expected": exp.tolist()})
+        seen.append((xa, ya, sl))
+    rec.nt(len(set(seen)) >= 2 and nd >= 3)
+    rec.label("ndim:%d" % nd, "layers:%d" % len(layers))
+
+
+@st.composite
+def image_cases(draw):
+    shape = draw(gen.shapes(2, 3, 4, 2))
+    nd = len(shape)
+    other = None
+    if draw(st.booleans()):
+        other = {"shrink": [draw(st.integers(0, 1)) for _ in range(nd)], "offset": [draw(st.integers(-1, 1)) for _ in range(nd)]}
+    steps = []
+    for _ in range(draw(st.integers(1, 5))):
+        view = None
+        if draw(st.booleans()):
+            view = [[draw(st.integers(0, 1)), draw(st.sampled_from([None, 2, 3])), draw(st.sampled_from([None, 1, 2]))],
+                    [draw(st.integers(0, 1)), draw(st.sampled_from([None, 2, 3, 4])), draw(st.sampled_from([None, 1, 2]))]]
+        steps.append({"x": draw(st.integers(0, 2)), "y": draw(st.integers(0, 2)), "slices": [draw(st.integers(0, 3)) for _ in range(3)], "view": view})
+    return {"shape": shape, "other": other, "thr": float(draw(st.integers(0, 12))), "steps": steps}
+
+
 # --------------------------------------------------------------------------- generator
 
 @st.composite
@@ -223,4 +325,6 @@ def cases(draw):
 
 def checks(tier):
     n = {"quick": 5000, "thorough": 100000}.get(tier, 10)
-    return [Check("request_sequences", fn_sequence, strategy=cases(), examples=n)]
+    m = {"quick": 800, "thorough": 30000}.get(tier, 10)
+    return [Check("request_sequences", fn_sequence, strategy=cases(), examples=n),
+            Check("image_layer_state", fn_image_layer, strategy=image_cases(), examples=m)]
